@@ -9,11 +9,17 @@
 //!      operations of imported files are never included) from the parsed files; if the Lean reference validator finds
 //!      that document spec-valid, the real pipeline must deliver zero diagnostics (and no import error).
 //!   K  the document the REAL resolver produced goes through the usual model-vs-code comparison.
+//!   O (C03)  projects with ONE labelled fault (`Project.labels`): a single-file mutation operator applied before the
+//!      definitions are dealt over the files, or equally named fragments that only meet in the merged document
+//!      (`duplicate_fragment_across_files`). For every root whose abstract merge violates the labelled rule
+//!      (`valid.rules`) the real pipeline must report a diagnostic of a kind of the rule — located in a file that
+//!      holds the faulty definition when the fault is confined to fragment definitions (`fault_files`).
 //! Projects are generated from a valid-by-construction document by distributing its definitions over 2–4 files:
 //! the first file keeps every operation (so its merge is valid by construction), the other files get fragments and
 //! their own operations (copies / small local ones) at random places — operations before, between and after the
 //! fragments —, imports are specific or `*`, split over several statements, sometimes left to a transitive import,
 //! sometimes placed between definitions, files may import from each other mutually.
+use super::mutate::Label;
 use super::{Anchors, Triple};
 use nitrogql_ast::{base::Pos, set_current_file_of_pos, OperationDocument};
 use nitrogql_checker::{check_operation_document, OperationCheckContext};
@@ -41,6 +47,11 @@ pub struct Project {
     pub files: Vec<PFile>,
     pub origin: String,
     pub features: Vec<String>,
+    /// C03: the injected, labelled faults (empty = a project that is valid by construction)
+    pub labels: Vec<Label>,
+    /// C03: indices of the files that hold the faulty definition(s) when the fault is confined to fragment
+    /// definitions (a diagnostic of the rule's kind must then be located in one of them); empty = no such claim
+    pub fault_files: Vec<usize>,
 }
 
 impl Project {
@@ -51,6 +62,8 @@ impl Project {
             "files": self.files.iter().map(|f| json!({"path": f.path, "text": f.text})).collect::<Vec<_>>(),
             "root": root,
             "origin": self.origin,
+            "labels": self.labels.iter().map(|l| json!({"rule": l.rule, "class": l.class, "mutation": l.mutation})).collect::<Vec<_>>(),
+            "fault_files": self.fault_files,
         })
     }
     pub fn from_json(v: &J) -> Option<Project> {
@@ -60,6 +73,11 @@ impl Project {
             files,
             origin: v["origin"].as_str().unwrap_or("replay").to_string(),
             features: vec![],
+            labels: v["labels"]
+                .as_array()
+                .map(|a| a.iter().map(|l| Label { rule: l["rule"].as_str().unwrap_or("").into(), class: l["class"].as_str().unwrap_or("").into(), mutation: l["mutation"].as_str().unwrap_or("").into() }).collect())
+                .unwrap_or_default(),
+            fault_files: v["fault_files"].as_array().map(|a| a.iter().filter_map(|x| x.as_u64().map(|n| n as usize)).collect()).unwrap_or_default(),
         })
     }
     pub fn size(&self) -> usize {
@@ -228,7 +246,10 @@ fn rel_spelling(rng: &mut Rng, from: &str, to: &str) -> String {
             _ => format!("./{rest}"),
         }
     } else {
-        format!("{}{}", "../".repeat(ups), rest)
+        match rng.below(4) {
+            0 => format!("./{}{}", "../".repeat(ups), rest),
+            _ => format!("{}{}", "../".repeat(ups), rest),
+        }
     }
 }
 
@@ -253,15 +274,27 @@ fn def_sel(d: &ExecDef) -> &[Sel] {
     }
 }
 
-struct GFile {
-    path: String,
-    defs: Vec<ExecDef>,
-    /// (target file, None = wildcard / Some(names), place: None = top, Some(k) = before definition k)
-    lines: Vec<(usize, Option<Vec<String>>, Option<usize>)>,
+pub struct GFile {
+    pub path: String,
+    pub defs: Vec<ExecDef>,
+    /// (target file, None = wildcard / Some(names), place: None = top, Some(k) = after definition k-1)
+    pub lines: Vec<(usize, Option<Vec<String>>, Option<usize>)>,
 }
 
-/// distribute the definitions of a valid document over several files; None when the document has no fragment
+/// a project before rendering: what the fault operators of the C03 stream work on
+pub struct Plan {
+    pub files: Vec<GFile>,
+    pub feats: BTreeSet<String>,
+    layout: [&'static str; 4],
+}
+
 pub fn gen_project(rng: &mut Rng, sdl: &[String], doc: &Doc, noisy: bool) -> Option<Project> {
+    let plan = plan_project(rng, doc)?;
+    Some(render_plan(rng, sdl, &plan, noisy))
+}
+
+/// distribute the definitions of a document over several files; None when the document has no fragment
+pub fn plan_project(rng: &mut Rng, doc: &Doc) -> Option<Plan> {
     let ops: Vec<&OpDef> = doc.defs.iter().filter_map(|d| if let ExecDef::Op(o) = d { Some(o) } else { None }).collect();
     let frags: Vec<&FragDef> = doc.defs.iter().filter_map(|d| if let ExecDef::Frag(f) = d { Some(f) } else { None }).collect();
     if frags.is_empty() || ops.is_empty() {
@@ -435,32 +468,64 @@ pub fn gen_project(rng: &mut Rng, sdl: &[String], doc: &Doc, noisy: bool) -> Opt
             }
         }
     }
+    // the same file imported with `*` a second time under another spelling of its path (still one file)
+    for x in 0..nf {
+        if rng.chance(1, 8) {
+            if let Some(l) = files[x].lines.iter().find(|l| l.1.is_none()).cloned() {
+                feats.insert("import:wildcard-twice-under-two-spellings".into());
+                files[x].lines.push(l);
+            }
+        }
+    }
+    if files.iter().any(|f| f.defs.is_empty()) {
+        return None;
+    }
     feats.insert(format!("import:files:{nf}"));
-    // texts
+    Some(Plan { files, feats, layout })
+}
+
+pub fn render_plan(rng: &mut Rng, sdl: &[String], plan: &Plan, noisy: bool) -> Project {
+    let files = &plan.files;
     let paths: Vec<String> = files.iter().map(|f| f.path.clone()).collect();
     let mut out = vec![];
-    for f in &files {
+    for f in files {
+        // `*` and names must not meet under one spelling of a path, and `*` only once per spelling
+        let mut wild: BTreeSet<String> = BTreeSet::new();
+        let mut named: BTreeSet<String> = BTreeSet::new();
+        let mut rendered: Vec<Option<ExecDef>> = vec![];
+        for (y, t, _) in &f.lines {
+            let mut found = None;
+            for _ in 0..8 {
+                let sp = rel_spelling(rng, &f.path, &paths[*y]);
+                let ok = if t.is_none() { !wild.contains(&sp) && !named.contains(&sp) } else { !wild.contains(&sp) };
+                if ok {
+                    found = Some(sp);
+                    break;
+                }
+            }
+            rendered.push(found.map(|sp| {
+                if t.is_none() { wild.insert(sp.clone()) } else { named.insert(sp.clone()) };
+                ExecDef::Import(ImportDef {
+                    targets: match t {
+                        None => vec![None],
+                        Some(ns) => ns.iter().map(|n| Some((n.clone(), P::default()))).collect(),
+                    },
+                    path: sp,
+                    pos: P::default(),
+                })
+            }));
+        }
         let mut defs: Vec<ExecDef> = vec![];
-        let imp = |rng: &mut Rng, y: usize, t: &Option<Vec<String>>| {
-            ExecDef::Import(ImportDef {
-                targets: match t {
-                    None => vec![None],
-                    Some(ns) => ns.iter().map(|n| Some((n.clone(), P::default()))).collect(),
-                },
-                path: rel_spelling(rng, &f.path, &paths[y]),
-                pos: P::default(),
-            })
-        };
-        for (y, t, place) in &f.lines {
+        for ((_, _, place), r) in f.lines.iter().zip(rendered.iter()) {
             if place.is_none() {
-                defs.push(imp(rng, *y, t));
+                defs.extend(r.clone());
             }
         }
         for (k, d) in f.defs.iter().enumerate() {
             defs.push(d.clone());
-            for (y, t, place) in &f.lines {
+            for ((_, _, place), r) in f.lines.iter().zip(rendered.iter()) {
                 if *place == Some(k + 1) {
-                    defs.push(imp(rng, *y, t));
+                    defs.extend(r.clone());
                 }
             }
         }
@@ -468,7 +533,121 @@ pub fn gen_project(rng: &mut Rng, sdl: &[String], doc: &Doc, noisy: bool) -> Opt
         let text = if noisy { render_doc(&mut d, Style::noisy(), rng.fork()).0 } else { render_doc(&mut d, Style::canonical(), Rng::new(0)).0 };
         out.push(PFile { path: f.path.clone(), text });
     }
-    Some(Project { sdl: sdl.to_vec(), files: out, origin: "import".into(), features: feats.into_iter().collect() })
+    Project { sdl: sdl.to_vec(), files: out, origin: "import".into(), features: plan.feats.iter().cloned().collect(), labels: vec![], fault_files: vec![] }
+}
+
+// ------------------------------------------------------------------------------------------------
+// C03: faults whose visibility depends on the import composition
+
+/// what `root` gets from the other files, computed on the plan: file → requested fragment names
+fn plan_requested(plan: &Plan, root: usize) -> BTreeMap<usize, BTreeSet<String>> {
+    let mut requested: BTreeMap<usize, BTreeSet<String>> = BTreeMap::new();
+    let mut visited: BTreeSet<usize> = BTreeSet::from([root]);
+    let mut todo = vec![root];
+    while let Some(x) = todo.pop() {
+        for (y, t, _) in &plan.files[x].lines {
+            let names: Vec<String> = plan.files[*y].defs.iter().filter_map(|d| if let ExecDef::Frag(f) = d { Some(f.name.clone()) } else { None }).collect();
+            match t {
+                None => requested.entry(*y).or_default().extend(names),
+                Some(ns) => requested.entry(*y).or_default().extend(ns.iter().cloned()),
+            }
+            if visited.insert(*y) {
+                todo.push(*y);
+            }
+        }
+    }
+    requested.remove(&root);
+    requested
+}
+
+/// Two fragment definitions of one name that meet only in the MERGED document of file 0: a local fragment with the
+/// name of an imported one, or equally named fragments imported from two files (directly, or one of them through
+/// the import of an imported file). Every file on its own keeps unique fragment names. Returns the class.
+pub fn duplicate_fragment_across_files(rng: &mut Rng, plan: &mut Plan) -> Option<String> {
+    let req = plan_requested(plan, 0);
+    let mut cands: Vec<(usize, FragDef)> = vec![];
+    for (y, names) in &req {
+        for d in &plan.files[*y].defs {
+            if let ExecDef::Frag(f) = d {
+                if names.contains(&f.name) {
+                    cands.push((*y, f.clone()));
+                }
+            }
+        }
+    }
+    if cands.is_empty() {
+        return None;
+    }
+    let (y, f) = cands[rng.below(cands.len())].clone();
+    // the second definition: an exact copy, or another body on the same type
+    let mut dup = f.clone();
+    if rng.coin() {
+        dup.sel = vec![Sel::field("__typename")];
+        dup.dirs = vec![];
+    }
+    let how = rng.below(3);
+    if how == 0 {
+        if plan.files[0].defs.iter().any(|d| matches!(d, ExecDef::Frag(g) if g.name == f.name)) {
+            return None;
+        }
+        let at = rng.below(plan.files[0].defs.len() + 1);
+        plan.files[0].defs.insert(at, ExecDef::Frag(dup));
+        // places of import statements that stand between definitions shift with the insertion
+        for l in plan.files[0].lines.iter_mut() {
+            if let Some(k) = l.2 {
+                if k > at {
+                    l.2 = Some(k + 1);
+                }
+            }
+        }
+        return Some("import/local-vs-imported".into());
+    }
+    // a file Z ≠ 0, y without a fragment of that name: an existing one or a new one
+    let nf = plan.files.len();
+    let existing: Vec<usize> = (1..nf).filter(|z| *z != y && !plan.files[*z].defs.iter().any(|d| matches!(d, ExecDef::Frag(g) if g.name == f.name))).collect();
+    let z = if !existing.is_empty() && (nf >= 4 || rng.coin()) {
+        existing[rng.below(existing.len())]
+    } else if nf < 4 {
+        let used: BTreeSet<&str> = plan.files.iter().map(|f| f.path.as_str()).collect();
+        let path = plan.layout.iter().find(|p| !used.contains(**p))?.to_string();
+        plan.files.push(GFile { path, defs: vec![], lines: vec![] });
+        nf
+    } else {
+        return None;
+    };
+    let at = rng.below(plan.files[z].defs.len() + 1);
+    plan.files[z].defs.insert(at, ExecDef::Frag(dup));
+    for l in plan.files[z].lines.iter_mut() {
+        if let Some(k) = l.2 {
+            if k > at {
+                l.2 = Some(k + 1);
+            }
+        }
+    }
+    // who imports it: file 0 itself, or (how == 2) a file that file 0 imports from
+    let direct: Vec<usize> = plan.files[0].lines.iter().map(|l| l.0).filter(|w| *w != z).collect();
+    let (importer, class) = if how == 2 && !direct.is_empty() { (direct[rng.below(direct.len())], "import/imported-vs-transitively-imported") } else { (0, "import/imported-vs-imported") };
+    let already = plan.files[importer].lines.iter().any(|l| l.0 == z && l.1.as_ref().map_or(true, |ns| ns.contains(&f.name)));
+    if !already {
+        let t = if rng.chance(1, 3) && !plan.files[importer].lines.iter().any(|l| l.0 == z) { None } else { Some(vec![f.name.clone()]) };
+        plan.files[importer].lines.push((z, t, None));
+    }
+    Some(class.into())
+}
+
+/// the files that hold the definitions a single-file mutation touched, when only fragment definitions were touched
+pub fn fault_files_of(before: &Doc, after: &Doc, plan: &Plan) -> Vec<usize> {
+    let touched: Vec<&ExecDef> = after.defs.iter().filter(|d| !before.defs.contains(d)).collect();
+    if touched.is_empty() || touched.iter().any(|d| !matches!(d, ExecDef::Frag(_))) {
+        return vec![];
+    }
+    let mut out = BTreeSet::new();
+    for (i, f) in plan.files.iter().enumerate() {
+        if f.defs.iter().any(|d| touched.contains(&d)) {
+            out.insert(i);
+        }
+    }
+    out.into_iter().collect()
 }
 
 /// hand-written projects of the general shapes (schema `s1` of the corpus)
@@ -478,6 +657,8 @@ pub fn corpus(s1: &str) -> Vec<Project> {
         files: files.iter().map(|(p, t)| PFile { path: p.to_string(), text: t.to_string() }).collect(),
         origin: format!("corpus-import:{name}"),
         features: vec![format!("import-corpus:{name}")],
+        labels: vec![],
+        fault_files: vec![],
     };
     vec![
         p(
@@ -507,6 +688,66 @@ pub fn corpus(s1: &str) -> Vec<Project> {
             &[
                 ("/p/a.graphql", "#import FB from \"./b.graphql\"\nquery QA { a { ...FA } }\nfragment FA on A { x b { ...FB } }\n"),
                 ("/p/b.graphql", "query QB { a { ...FA } }\n#import FA from \"./a.graphql\"\nfragment FB on B { y }\n"),
+            ],
+        ),
+    ]
+}
+
+/// hand-written projects with one labelled fault each (C03; schema `s1` of the corpus)
+pub fn corpus_c03(s1: &str) -> Vec<Project> {
+    let p = |name: &str, rule: &str, class: &str, mutation: &str, fault_files: &[usize], files: &[(&str, &str)]| Project {
+        sdl: vec![s1.to_string()],
+        files: files.iter().map(|(p, t)| PFile { path: p.to_string(), text: t.to_string() }).collect(),
+        origin: format!("corpus-import:{name}"),
+        features: vec![format!("import-corpus:{name}")],
+        labels: vec![Label { rule: rule.into(), class: class.into(), mutation: mutation.into() }],
+        fault_files: fault_files.to_vec(),
+    };
+    vec![
+        p(
+            "local-fragment-named-like-an-imported-one",
+            "5.5.1.1",
+            "import/local-vs-imported",
+            "duplicate-fragment-name-across-files",
+            &[],
+            &[
+                ("/p/src/list.graphql", "#import ACard from \"./detail.graphql\"\nquery List { a { ...ACard } }\nfragment ACard on A { x }\n"),
+                ("/p/src/detail.graphql", "query Detail { a { ...ACard } }\nfragment ACard on A { id x }\n"),
+            ],
+        ),
+        p(
+            "equally-named-fragments-from-two-files",
+            "5.5.1.1",
+            "import/imported-vs-imported",
+            "duplicate-fragment-name-across-files",
+            &[],
+            &[
+                ("/p/a.graphql", "#import * from \"./b.graphql\"\n#import FA from \"./sub/c.graphql\"\nquery Q { a { ...FA } }\n"),
+                ("/p/b.graphql", "fragment FA on A { x }\n"),
+                ("/p/sub/c.graphql", "query C { a { ...FA } }\nfragment FA on A { id }\n"),
+            ],
+        ),
+        p(
+            "unknown-field-in-an-imported-fragment",
+            "5.3.1",
+            "frag1",
+            "rename-field",
+            &[1],
+            &[
+                ("/p/a.graphql", "#import FA from \"./b.graphql\"\nquery Q { a { ...FA } }\n"),
+                ("/p/b.graphql", "fragment FA on A { x nonexistent }\n"),
+            ],
+        ),
+        p(
+            "undefined-variable-in-a-transitively-imported-fragment",
+            "5.8.3",
+            "frag2",
+            "undefined-variable",
+            &[2],
+            &[
+                ("/p/a.graphql", "#import FQ from \"./b.graphql\"\nquery Q { ...FQ }\n"),
+                ("/p/b.graphql", "#import FQ2 from \"./c.graphql\"\nfragment FQ on Query { ...FQ2 }\n"),
+                ("/p/c.graphql", "fragment FQ2 on Query { f(n: $nope) }\n"),
             ],
         ),
     ]
